@@ -1,9 +1,8 @@
 //! BLTE encryption support
-//!
-//! Uses expect in binrw map functions where Result types cannot be used.
-#![allow(clippy::expect_used)]
 
 use binrw::{BinRead, BinWrite};
+
+use super::error::BlteError;
 
 /// Encryption type for BLTE chunks
 #[derive(Debug, Clone, Copy, PartialEq, Eq)]
@@ -49,7 +48,7 @@ pub struct EncryptedHeader {
     pub iv: Vec<u8>,
 
     /// Encryption type
-    #[br(map = |x: u8| EncryptionType::from_byte(x).expect("valid encryption type byte"))]
+    #[br(try_map = |x: u8| EncryptionType::from_byte(x).ok_or_else(|| BlteError::CompressionError(format!("Unknown encryption type: 0x{x:02X}"))))]
     #[bw(map = |x: &EncryptionType| x.as_byte())]
     pub encryption_type: EncryptionType,
 }
